@@ -1,7 +1,7 @@
 // C08: level limits bound every point a grid ever contains or proposes; limits persist; saturated limits terminate with zero needed points.
 // args: <grid spec> <ops> <pass>   The limits vector is derived from symbolic reals: each entry in {-1,0,1,2} (solver-enumerated classes).
 //   ops (comma separated, after "make with limits" and an initial load):
-//   A anisotropic refinement | Sg surplus (global/sequence) | Sc Sf Ss surplus (local/wavelet) | U updateGrid(depth+2) | K construction candidates (+load a few, finish)
+//   A anisotropic refinement (A4 / A7: min_growth 4 / 7) | Sg surplus (global/sequence) | Sc Sf Ss surplus (local/wavelet) | U updateGrid(depth+2) | K construction candidates (+load a few, finish)
 //   X clearLevelLimits (afterwards nothing is restricted) | Ud updateGrid(same depth: selects nothing new)
 //   suffixes: ^ this call passes loosened limits (each restricted entry + 2) | v this call passes the original limits again | ! the proposal is left pending (not loaded)
 //   pass: 0 = limits given at make time only (later calls pass none: persistence) ; 1 = make without limits, limits passed to the first later call only
@@ -88,6 +88,7 @@ int main(int argc, char **argv){
       fpsym_check(admissible(cand2, d), (tag + "candidates of a later request without limits still respect the stored limits").c_str());
       grid.finishConstruction();
     } else if (op == "A"){ grid.setAnisotropicRefinement(type_iptotal, 1, 0, arg);
+    } else if (op == "A4" || op == "A7"){ grid.setAnisotropicRefinement(type_iptotal, op == "A4" ? 4 : 7, 0, arg);   // min_growth larger than what the limits may leave: the call proposes what is left and returns
     } else if (op == "Sg"){ grid.setSurplusRefinement(tol, 0, arg);
     } else if (op == "Sc" || op == "Sf" || op == "Ss"){
       PSet want; bool exact = (op == "Sc");
